@@ -11,8 +11,10 @@ Value gen(uint64_t seed, const std::string& tier)
     Rng g(sim::mix(seed, 0xC02));
     SolverOpts o;
     o.prob = gen_problem(g, true, false);
-    static const double R0s[] = {1e-8, 1e-5, 1e-3, 0.1};
-    o.R0             = R0s[g.below(4)];
+    // with the Dirichlet treatment the hole may be sizeable (annular domains: the circle/radial split then sits at its
+    // lower bound on several levels)
+    static const double R0s[] = {1e-8, 1e-5, 1e-3, 0.1, 0.3, 0.5};
+    o.R0             = R0s[g.below(6)];
     o.nr_exp         = 4;
     o.ntheta_exp     = -1;
     // uniform base grid, or an anisotropically refined one (what the shipped convergence study uses); the ladder then
@@ -135,6 +137,8 @@ void run(const Value& plan, Result& r)
         return;
     r.nontrivial = true;
     r.probe(o.aniso ? "anisotropic_base_grid" : "uniform_base_grid");
+    if (o.R0 >= 0.3)
+        r.probe("annular_domain");
     r.probe(o.extrapolation ? "extrapolated_ladder" : "plain_ladder");
     r.probe(reuse ? "reused_object" : "fresh_objects");
     r.probe(fmt("geometry_%d", o.prob.geometry));
